@@ -309,6 +309,14 @@ def run_c02(chk, tier, seed):
             nxt3 = "{Mk(l, p, FALSE) : l \\in {0, 1}, p \\in PHdrs(1)} \\cup {Mk(0, <<c>>, FALSE) : c \\in Commons} \\cup {Mk(0, p, TRUE) : p \\in PHdrs(2)}"
             s4 = run_projection(chk, "C02", f"{name}-triple", ft, cands, defs, first, nxt3, 3, [""], [-1])
             total += s4["executed"]
+    # a branch with 258 children (positions beyond 255): headers over a few of them and their neighbours
+    wide = T(B("OUTP", *[L(f"CH{i}") for i in range(1, 259)]), L("X"))
+    ft = flatten(wide)
+    cands = ["OUTP", "outp", "CH1", "CH", "CH2", "CH44", "CH255", "CH256", "CH257", "ch257", "CH258", "CH259", "CH513", "X", "ZZ"]
+    defs = headers_defs(2)
+    all_units = "{Mk(l, p, q) : l \\in {0, 1}, p \\in PHdrs(2), q \\in BOOLEAN}"
+    s5 = run_projection(chk, "C02", "wide-single", ft, cands, defs, all_units, "{}", 1, [""], [-1], ["--history"])
+    total += s5["executed"]
     # spelling richness: every spelling variant on valid headers of one tree each
     for name in ("defaults", "suffix", "flat"):
         tree = TREES[name]
